@@ -1,5 +1,6 @@
 ------------------------------- MODULE FractalMC -------------------------------
 EXTENDS Fractal
-MCHome == [c \in Leaves |-> IF c = "c1" THEN "S" ELSE "r1"]
+MCHome == [c \in Leaves |-> IF c = "c1" THEN "r1" ELSE "r2"]
+MCRHome == [r \in Relays |-> IF r = "r1" THEN "S" ELSE "r1"]
 Small == \A c \in Leaves, t \in TaskIds : R.got[c][t] <= 2
 =============================================================================
